@@ -116,8 +116,8 @@ if [ ! -x "$OUT" ]; then
   for p in "${pids[@]}"; do wait "$p" || { echo "build.sh: compiling the repository failed (variant $VARIANT)" >&2; exit 2; }; done
   # the flavor really selected: read it off the objects' imports (before renaming)
   ( cd "$T/o" && nm -u *.o | awk 'NF==2{print $2}' | sort -u ) > "$T/imports.txt" || true
-  if grep -qx getrandom "$T/imports.txt"; then TRNG_FLAVOR=getrandom
-  elif grep -qx getentropy "$T/imports.txt"; then TRNG_FLAVOR=getentropy
+  if grep -qxE 'getrandom|__getrandom_chk' "$T/imports.txt"; then TRNG_FLAVOR=getrandom
+  elif grep -qxE 'getentropy|__getentropy_chk' "$T/imports.txt"; then TRNG_FLAVOR=getentropy
   elif grep -qx syscall "$T/imports.txt"; then TRNG_FLAVOR=syscall
   else TRNG_FLAVOR=devurandom; fi
   # dictionary of the constants the code compares with or stores (immediates of 5+ hex digits and .rodata words):
@@ -136,6 +136,8 @@ if [ ! -x "$OUT" ]; then
             --redefine-sym sleep=verif_os_sleep --redefine-sym sched_yield=verif_os_sched_yield --redefine-sym clock_gettime=verif_os_clock_gettime \
             --redefine-sym gettimeofday=verif_os_gettimeofday --redefine-sym time=verif_os_time --redefine-sym clock=verif_os_clock \
             --redefine-sym getpid=verif_os_getpid \
+            --redefine-sym __read_chk=verif_os_read_chk --redefine-sym __open_2=verif_os_open_2 --redefine-sym __open64_2=verif_os_open_2 \
+            --redefine-sym __getrandom_chk=verif_os_getrandom_chk --redefine-sym __getentropy_chk=verif_os_getentropy_chk \
             --redefine-sym malloc=verif_lib_malloc --redefine-sym calloc=verif_lib_calloc --redefine-sym realloc=verif_lib_realloc --redefine-sym free=verif_lib_free \
             --redefine-sym posix_memalign=verif_lib_posix_memalign --redefine-sym aligned_alloc=verif_lib_aligned_alloc "$f"
   done
